@@ -66,8 +66,35 @@ def comprehension_probe(ctx, key):
                     "a comprehension inside a simplified query: the result does not compute what the original computes", key=key)
 
 
+def reuse_family(rng, n):
+    """a stage lambda that re-uses the still-live parameter name of the ENCLOSING (un-called) lambda, followed by a stage whose
+    lambda mentions the enclosing parameter: fusing the two stages must not let the inner binder capture it"""
+    out = []
+    for _ in range(n):
+        P = rng.choice(["e", "x", "j", "evt"])
+        Q = rng.choice([P, P, P, "q"])           # mostly the re-use; sometimes distinct (must behave the same)
+        seq, fld = rng.choice([("jets", "trks"), ("jets", "vals"), ("els", "vals"), ("els", "trks")])
+        leaf = "y.pt" if fld == "trks" else "y"
+        outer_int = rng.choice(["met", "run"])
+        inner = f"SelectMany({P}.{seq}, lambda {Q}: {Q}.{fld})"
+        body = rng.choice([
+            f"Select({inner}, lambda y: {leaf} + {P}.{outer_int})",
+            f"Where({inner}, lambda y: {leaf} > {P}.{outer_int})",
+            f"SelectMany({inner}, lambda y: {P}.nums)",
+            f"Count(Where({inner}, lambda y: {leaf} < {P}.{outer_int}))",
+            f"First(Select({inner}, lambda y: ({leaf}, {P}.{outer_int})))[1]",
+            f"Select(Select({P}.{seq}, lambda {Q}: {Q}.pt), lambda y: y + {P}.{outer_int})",
+            f"Where(Where({P}.{seq}, lambda {Q}: {Q}.pt > 1), lambda y: y.pt > {P}.{outer_int})",
+        ])
+        top = rng.choice([f"Select(ds, lambda {P}: {body})", f"Select(Where(ds, lambda {P}: {P}.met > 0), lambda {P}: {body})",
+                          f"SelectMany(ds, lambda {P}: Select({P}.jets, lambda k: {body}))" if P != "k" else f"Select(ds, lambda {P}: {body})"])
+        out.append(top)
+    return out
+
+
 def run(ctx):
     comprehension_probe(ctx, "C02-comprehension-target-captured")
+    simplify.check_queries(ctx, reuse_family(ctx.rng, ctx.n(60, 1500)), "c02-reuse")
     n = ctx.n(1200, 60000)
     done = 0
     while done < n:
